@@ -75,6 +75,9 @@ def fixed_programs():
         "PROGRAM g IN a, b OUT b DO\n  m: IF a = 0 THEN GOTO e;\n  a := a - 1; b := b + 2;\n  GOTO m;\n  e: b := b + 0\nEND\nx0 := RUN g WITH 2, 1 END;\nx0 := RUN g WITH x0, x0 END\n",
         "PROGRAM h IN a DO x0 := a; STOP END\nx1 := 1;\nx1 := RUN h WITH x1 END;\nx2 := 5\n",
         "x0 := 0\n",
+        # STOP two and three calls below the script: the run ends with several activations open
+        "PROGRAM h IN a DO x0 := a; STOP END\nPROGRAM g IN a, b DO x0 := RUN h WITH b END END\nPROGRAM k IN a DO x0 := RUN g WITH a, 4 END; x0 := 9 END\nx1 := 1;\nx1 := RUN k WITH x1 END;\nx2 := 5\n",
+        "PROGRAM h IN a DO LOOP a DO STOP END END\nPROGRAM g IN a DO x0 := RUN h WITH a END END\nx1 := 2; x2 := RUN g WITH RUN g WITH 0 END END;\nx2 := RUN g WITH x1 END\n",
     ]
 
 
